@@ -241,6 +241,8 @@ func ruleBounds(p *Prog, r *Report) {
 		r.fail("R20.2b", "anchor|nsx ParseConfig", "", "not found", "")
 	}
 	ruleLookupListsNonEmpty(p, r)
+	r.rule("R20.3b", "The pairing invariant behind an audited nil residual is established by code whose decisions are frozen: the return sites of (*panos.addrListPair).Equal keep their audited controlling conditions and values (tables/guards.tsv rows for C20): a device address-group is paired only with a name that is an address-group in the target, so the target-side group lookup in hasEqualizedLists cannot miss.")
+	ruleGuardTable(p, r, "R20.3b", "C20")
 	ruleNSXSingletons(p, r, []string{"nsx.nsxRule.SourceGroups", "nsx.nsxRule.DestinationGroups", "nsx.nsxRule.Services", "nsx.nsxGroup.Expression"})
 }
 
@@ -417,6 +419,61 @@ func nilResiduals(p *Prog) []nilUse {
 					continue
 				}
 				out = append(out, nilUse{fn, in, src, fieldName(fa)})
+			}
+		}
+		// one level inter-procedural: an unguarded map lookup handed to a module function
+		// (or local closure) that dereferences the parameter without testing it
+		for _, b := range fn.Blocks {
+			for _, in := range b.Instrs {
+				ci, ok := in.(ssa.CallInstruction)
+				if !ok {
+					continue
+				}
+				var callees []*ssa.Function
+				if g := ci.Common().StaticCallee(); g != nil {
+					callees = append(callees, g)
+				} else {
+					callees = calleesOfSite(p, &callSite{In: ci, Fn: fn})
+				}
+				for ai, v := range ci.Common().Args {
+					isLookup := false
+					switch x := v.(type) {
+					case *ssa.Lookup:
+						if _, isPtr := x.Type().Underlying().(*types.Pointer); isPtr && !x.CommaOk {
+							isLookup = true
+						}
+					case *ssa.Extract:
+						if lk, ok := x.Tuple.(*ssa.Lookup); ok && x.Index == 0 {
+							if _, isPtr := x.Type().Underlying().(*types.Pointer); isPtr && lk.CommaOk {
+								isLookup = true
+							}
+						}
+					}
+					if !isLookup || nilGuarded(v, in) {
+						continue
+					}
+					for _, g := range callees {
+						if g == nil || !isModFunc(g) || len(g.Blocks) == 0 {
+							continue
+						}
+						// parameter index: receiver included in Params for methods; closures: same order
+						if ai >= len(g.Params) {
+							continue
+						}
+						par := g.Params[ai]
+						if par.Referrers() == nil {
+							continue
+						}
+						for _, ref := range *par.Referrers() {
+							fa, ok := ref.(*ssa.FieldAddr)
+							if !ok || nilGuarded(par, fa) {
+								continue
+							}
+							out = append(out, nilUse{fn, in, "map lookup passed to " + fnDisplay(g), fieldName(fa)})
+							break
+						}
+					}
+				}
 			}
 		}
 	}
